@@ -7,6 +7,8 @@ import (
 	"strings"
 	"time"
 
+	"github.com/bool64/cache"
+
 	"verif/ref"
 	"verif/vclock"
 	"verif/vsched"
@@ -60,7 +62,7 @@ func c03Cells(tier string) []Cell {
 	return cells
 }
 
-var c03SeqOps = []string{"Get(ok)", "Get(fail)", "Advance(1s)", "Advance(21s>FailedUpdateTTL)", "Advance(61s>UpdateTTL)", "Advance(2m>MaxStaleness)", "Advance(5m1s>TTL)", "ExpireAll"}
+var c03SeqOps = []string{"Get(ok)", "Get(fail)", "Advance(1s)", "Advance(21s>FailedUpdateTTL)", "Advance(61s>UpdateTTL)", "Advance(2m>MaxStaleness)", "Advance(5m1s>TTL)", "ExpireAll", "Get(ok, caller context carries TTL 20m)"}
 
 // c03Sequences enumerates every operation sequence that starts with ops[first].
 func c03Sequences(cfg FCfg, env *Env) CellResult {
@@ -117,18 +119,26 @@ func c03Sequences(cfg FCfg, env *Env) CellResult {
 
 			for _, o := range seq {
 				switch o {
-				case 0, 1:
+				case 0, 1, 8:
 					h.cfg.Script = "o"
 					if o == 1 {
 						h.cfg.Script = "f"
 					}
 
+					gctx := context.Background()
+					callerTTL := time.Duration(0)
+
+					if o == 8 {
+						callerTTL = 20 * time.Minute
+						gctx = cache.WithTTL(gctx, callerTTL, false)
+					}
+
 					now := vclock.NowQuiet()
-					st := m.Get(now, o == 0)
+					st := m.GetWithTTL(now, o != 1, callerTTL)
 					nb := h.nbuild[0]
 					// the harness builder numbers invocations itself; make them line up with the model
 					key := append([]byte(nil), h.keys[0]...)
-					t, isNil, _, err := h.front.Get(context.Background(), key, h.builder(0))
+					t, isNil, _, err := h.front.Get(gctx, key, h.builder(0))
 					vsched.Join()
 
 					got := "?"
@@ -442,7 +452,7 @@ func init() {
 		Rule: "the complete finite table: entry state {absent,fresh,stale,too stale} x failure cache {empty,hit} x SyncUpdate x SyncRead x FailHard x MaxStaleness {0,1m} x FailedUpdateTTL {default,-1} " +
 			"x builder {ok,error} x front-end {Failover+ShardedMap, Failover+SyncMap, FailoverOf+ShardedMapOf}; per cell one Get under the scheduler with ALL schedules of caller and background build; " +
 			"oracle ref.FailoverTable written from README bullets 2-7: result, builder invocations, sync/background, backend and failure cache at quiescence; " +
-			"plus every sequence of <=4 (quick) / <=5 (thorough) operations over {Get(ok), Get(fail), Advance 1s / 21s / 61s / 2m / 5m1s, ExpireAll} x 32 configurations x 3 front-ends against the sequential model ref.FModel (table + entry/failure state), so that cells are entered from non-initial states",
+			"plus every sequence of <=4 (quick) / <=5 (thorough) operations over {Get(ok), Get(fail), Get(ok) under a caller TTL of 20m, Advance 1s / 21s / 61s / 2m / 5m1s, ExpireAll} x 32 configurations x 3 front-ends against the sequential model ref.FModel (table + entry/failure state), so that cells are entered from non-initial states",
 		Assumptions: []string{
 			"two cells are documented ambiguously (stale value present and failure cached): either documented outcome is accepted",
 			"MaxStaleness=0 makes 'too stale' coincide with 'stale'",
